@@ -55,7 +55,7 @@ PROPS = {
         not_covered=[
             'elapsed (virtual) time: that tokio::time::sleep(d) fires after exactly d and the grid of (caller timeout, configured timeout, handler latency) triples - the timer is an assumed primitive (A-tokio-01)',
             'mapping of TimeoutExpired to a CANCELLED "Timeout expired" status goes through dyn Error source chains (Status::from_error / find_status_in_source_chain, RecoverError): not under contract',
-            'Request::set_timeout is under contract (the grpc-timeout entry is the written value; the parse/unwrap never panics: lemma_timeout_text_is_visible); of the server wiring only the Server builder (setters, layer()) is: the hand-over Server.timeout -> MakeSvc.timeout -> GrpcTimeout::new inside serve_internal / MakeSvc::call (async fn, tower builder closures) and tls_config / trace_fn are not',
+            'Request::set_timeout is under contract (the grpc-timeout entry is the written value; the parse/unwrap never panics: lemma_timeout_text_is_visible); of the wiring only the Server builder (15 setters, layer()) and the Endpoint builder (15 setters: Endpoint::timeout stores the configured timeout, no other setter touches it) are: the hand-over Server.timeout -> MakeSvc.timeout -> GrpcTimeout::new inside serve_internal / MakeSvc::call (async fn, tower builder closures) and tls_config / trace_fn are not',
             'is_ascii_digits (iterator adapter) is discharged by the complete Kani harness kani::timeout_digits for every ASCII string of at most 8 bytes - the Verus shim carries that length as a precondition, proved at the call site - and linked as a callee contract; str::parse::<u64>, str::split_at, Display of integers are assumed std contracts (A-std-parse-01, A-std-str-04, A-fmt-01)',
         ]),
     'C08': dict(
